@@ -251,6 +251,31 @@ func c19Check(c C19Case) (res evid.Result) {
 		case !msEq(or, msUnion(qf, qg)):
 			res.Violation = evid.Viol("C19/or-not-union", "%s: q|(a or b) (%d) is not (q|a) ∪ (q|b) (%d)", what, msSize(or), msSize(msUnion(qf, qg)))
 		}
+		// a and (b or c), (a or b) and c - with the third predicate taken from g when it is one:
+		// parentheses group, whatever binds tighter without them.
+		if res.Violation == nil && c.G.Pred != nil && c.G.Kind == "labelfilter" {
+			h := c.G
+			qh := r.run(withStages(c.Q, h))
+			orGroup := &gen.Pred{Kind: "or", L: g.Pred, R: h.Pred, Paren: true}
+			conj := c.Conj
+			if conj == " " {
+				conj = "and" // juxtaposition is only part of the grammar in front of an identifier
+			}
+			andGroup := r.run(withStages(c.Q, gen.Stage{Kind: "labelfilter", Pred: &gen.Pred{Kind: "and", L: f.Pred, R: orGroup, Conj: conj}}))
+			orFirst := r.run(withStages(c.Q, gen.Stage{Kind: "labelfilter", Pred: &gen.Pred{Kind: "and", L: &gen.Pred{Kind: "or", L: f.Pred, R: g.Pred, Paren: true}, R: h.Pred}}))
+			res.Evals = r.evals
+			if r.err != nil {
+				res.Violation = r.err
+				return res
+			}
+			switch {
+			case !msEq(andGroup, msInter(qf, msUnion(qg, qh))):
+				res.Violation = evid.Viol("C19/and-of-or-group", "%s, c = %s: q|(a and (b or c)) (%d) is not (q|a) ∩ ((q|b) ∪ (q|c)) (%d)", what, stageText(h), msSize(andGroup), msSize(msInter(qf, msUnion(qg, qh))))
+			case !msEq(orFirst, msInter(msUnion(qf, qg), qh)):
+				res.Violation = evid.Viol("C19/and-of-or-group", "%s, c = %s: q|((a or b) and c) (%d) is not ((q|a) ∪ (q|b)) ∩ (q|c) (%d)", what, stageText(h), msSize(orFirst), msSize(msInter(msUnion(qf, qg), qh)))
+			}
+			res.Class(true, "and-of-a-parenthesised-or")
+		}
 		res.Class(true, "and/or-checked")
 		res.Class(f.Pred.Label == g.Pred.Label && f.Pred.Label != "" && f.Pred.Kind != "match" && f.Pred.Kind == g.Pred.Kind, "a-and-b-bound-one-label")
 		res.Class(msSize(and) > 0 && msSize(and) < msSize(or), "and<or")
